@@ -112,7 +112,13 @@ func (c *Ctx) c11Gen(n int, modelled bool) c11hist {
 	var h c11hist
 	row := 0
 	cols := []int{1, 2, 3, 5, 8}
-	strs := []string{"a", "x y", " lead", "<&>\"'", "ü€𝄞", "1", "TRUE", "=1+1", "_x0041_", "line\nbreak", ""}
+	strs := []string{"a", "x y", " lead", "<&>\"'", "ü€𝄞", "1", "TRUE", "=1+1", "_x0041_", "line\nbreak", "", "cr\r\nlf", "tab\there"}
+	formulas := []string{"SUM(A1:B2)", "A1&\"<x>\"", "1+1", "IF(A1>0,\"y\",\"n\")", "IF(B1,\r\n1,\r\n2)", "A1+\t1"}
+	if !modelled {
+		// characters XML cannot carry: both paths must treat them alike
+		strs = append(strs, "ctl\x01x", "bell\x07")
+		formulas = append(formulas, "LEN(\"a\x01b\")")
+	}
 	wroteRow := false
 	usedMerge := map[int]bool{}
 	for i := 0; i < n; i++ {
@@ -193,7 +199,7 @@ func (c *Ctx) c11Gen(n int, modelled bool) c11hist {
 				if v.AsCell != 0 {
 					v.Style = r.Intn(5)
 					if r.Intn(3) == 0 {
-						v.Formula = []string{"SUM(A1:B2)", "A1&\"<x>\"", "1+1", "IF(A1>0,\"y\",\"n\")"}[r.Intn(4)]
+						v.Formula = formulas[r.Intn(len(formulas))]
 					}
 				}
 				op.Vals = append(op.Vals, v)
